@@ -1130,7 +1130,7 @@ func (c *c17) callMigratorTable() {
 	}
 	// run the package initialiser abstractly to obtain the closures stored in the table
 	fr := &tFrame{fn: initFn, vals: map[ssa.Value]aval{}}
-	for _, b := range initFn.DomPreorder() {
+	for _, b := range rpoBlocks(initFn) {
 		for _, in := range b.Instrs {
 			if call, ok := in.(*ssa.Call); ok {
 				// only the migrator constructors matter; skip everything else in the package initialiser
